@@ -162,6 +162,7 @@ func (r *Runner) randSetOpts(name string) SetOpts {
 		case 2:
 			o.Claims = []string{"data", "log"}
 		}
+		o.ClaimLabels = r.chance(0.4)
 	}
 	if r.Cfg.DeleteSet && r.chance(0.5) {
 		o.Finalizers = []string{"verif/hold"}
